@@ -280,7 +280,13 @@ func runScenario(sc scenario, script []int, deterministic bool) *outcome {
 		out.finals = append(out.finals, readRing(p))
 	}
 
-	// --- renderings
+	out.render()
+	return out
+}
+
+// render builds the model op line (from the recorded schedule) and the implementation's rendering.
+func (out *outcome) render() {
+	sc, w := out.sc, out.w
 	var line strings.Builder
 	fmt.Fprintf(&line, "C17.replay %d", len(sc.rings))
 	for _, r := range out.initial {
@@ -336,7 +342,6 @@ func runScenario(sc scenario, script []int, deterministic bool) *outcome {
 		impl.WriteString(" " + s)
 	}
 	out.impl = impl.String()
-	return out
 }
 
 func (w *world) renderCall(rc rec) string {
